@@ -149,6 +149,9 @@ def check_module(ctx: Ctx, defn: dict, mod: S.XModule, seed: int, n_trees: int) 
                 ctx.fail("field-kafka-type", f"{fid}: kafka_type {g.metadata.get('kafka_type')!r}, expected {x.kind}", defname)
             if g.metadata.get("tag") != x.tag:
                 ctx.fail("field-tag", f"{fid}: tag {g.metadata.get('tag')!r}, definition says {x.tag!r} at v{mod.version}", defname)
+            if not (g.init and g.repr and g.compare and g.hash is None):
+                ctx.fail("field-options", f"{fid}: init={g.init} repr={g.repr} compare={g.compare} hash={g.hash}: every generated field takes part in "
+                         f"__init__, repr, equality and hash", defname)
             has = g.default is not dataclasses.MISSING
             if x.tag is not None:
                 try:
